@@ -1434,8 +1434,13 @@ const char* rtosc_skip_next_printed_arg(const char* src, int* skipped,
                 bool llhsarg_is_useless = false;
                 if(llhssrc)
                 {
+                    // an array (also one repeated with "Nx") is a neighbour
+                    // as a whole: the ranges inside it are none of this list
+                    const char* llhsval = is_range_multiplier(llhssrc)
+                                        ? strchr(llhssrc, 'x') + 1 : llhssrc;
                     const char* next_ellipsis_from_llhssrc =
-                            strstr(llhssrc, "...");
+                            (*llhsval == '[') ? ellipsis
+                                              : strstr(llhssrc, "...");
                     // the "(...+0x1p-1s)" of a time tag is no range
                     while(next_ellipsis_from_llhssrc < ellipsis)
                     {
